@@ -189,6 +189,10 @@ type DialSpec struct {
 	// u = url.Parse(URL) (documented as Dialer.Dial on u.String() over the given connection); only when
 	// the URL parses and neither subprotocols nor compression are requested (NewClient has no such options)
 	ViaNewClient bool `json:"via_new_client,omitempty"`
+	// SplitReply: the server's reply reaches the client in pieces - the header block, then the body
+	// in runs of 1..700 bytes (SplitSeed) - instead of one segment
+	SplitReply bool  `json:"split_reply,omitempty"`
+	SplitSeed  int64 `json:"split_seed,omitempty"`
 }
 
 func buildReply(rs *ReplySpec, key string) ([]byte, http.Header) {
@@ -288,6 +292,21 @@ func dialExec(s core.Spec) core.Exec {
 				var bb bytes.Buffer
 				bb.ReadFrom(pr.Body)
 				bodyAvail = bb.Len()
+			}
+			if sp.SplitReply {
+				if i := bytes.Index(rb, []byte("\r\n\r\n")); i >= 0 {
+					r2 := rand.New(rand.NewSource(sp.SplitSeed))
+					out := [][]byte{rb[:i+4]}
+					for rest := rb[i+4:]; len(rest) > 0; {
+						k := 1 + r2.Intn(700)
+						if k > len(rest) {
+							k = len(rest)
+						}
+						out = append(out, rest[:k])
+						rest = rest[k:]
+					}
+					return out
+				}
 			}
 			return [][]byte{rb}
 		}
@@ -500,6 +519,9 @@ func c14Gen(rng *rand.Rand, tier string) []core.Spec {
 				sp.Caller = append(sp.Caller, KV{K: B(name), V: []B{B(core.Pick(rng, []string{"v1", "other.example", "AAAAAAAAAAAAAAAAAAAAAA==", "h2c", "chat"}))}})
 			}
 		}
+		if rng.Intn(3) == 0 {
+			sp.SplitReply, sp.SplitSeed = true, rng.Int63()
+		}
 		// one case in five goes through the deprecated NewClient (which has neither option)
 		if rng.Intn(5) == 0 {
 			sp.ViaNewClient, sp.Compression, sp.Subprotos = true, false, nil
@@ -601,6 +623,7 @@ var dialClauses = map[int]string{
 	121: "a reply that proves acceptance (well-formed token lists) was refused with ErrBadHandshake",
 	122: "more than 1024 body bytes kept with ErrBadHandshake",
 	123: "the URL / header was refused, yet a request was sent",
+	118: "fewer body bytes were kept with ErrBadHandshake than the reply carried (up to 1024)",
 	119: "a URL that is not ws/wss or that carries userinfo was not refused as malformed",
 	124: "the request target is not the URL's path and query",
 	125: "Upgrade / Connection / Sec-WebSocket-Version of the request are not the library's values exactly once",
